@@ -515,6 +515,20 @@ def o_c03(rec, table=None):
     cand = [r for r in table if r["x"].tobytes() == x.tobytes()
             and feq(r["f"], res.fun)]
     if not cand:
+        # the reported fun does not belong to x (C02 judges that); the POINT
+        # returned is still judged here, with the values it truly has
+        cand = [r for r in table if r["x"].tobytes() == x.tobytes()]
+        info["fun_mismatch"] = bool(cand)
+    if not cand:
+        if not any(r["x"].tobytes() == x.tobytes() for r in table) \
+                and x.shape == table[0]["x"].shape \
+                and np.all(np.isfinite(x)):
+            # the returned x is not even one of the evaluated points: it
+            # cannot be 'the best of the points evaluated'
+            out.append(V("returned_point_not_evaluated",
+                         f"res.x={x.tolist()} is none of the "
+                         f"{len(table)} evaluated points",
+                         mechanism="not_evaluated"))
         info["skipped"] = "returned point not in history (C02)"
         return out, info
     pen = float(rec.run.final["penalty"])
